@@ -132,7 +132,14 @@ def server_half(ctx, binary):
     ctx.mc("KeepaliveSrvMC", "KeepaliveSrvMC.cfg", workers=4)
     ctx.neg("KeepaliveSrvMC", "KeepaliveSrvNeg.cfg", expect="I_NoFalseCalm", workers=2)
     g = ctx.dump_graph("KeepaliveSrvMC", ctx.pick("KeepaliveSrvGen.cfg", "KeepaliveSrvMC.cfg"), workers=4)
-    raw = ctx.edge_cover(g, s_step_of, limit=ctx.pick(800, None))
+    raw = ctx.edge_cover(g, s_step_of)
+    lim = ctx.pick(800, None)
+    if lim is not None and len(raw) > lim:
+        # every timeline that the model ends with GOAWAY is kept (they are the ones that exercise I_Calm); the rest is sampled
+        must = [b for b in raw if b[-1]["goaway"]]
+        rest = [b for b in raw if not b[-1]["goaway"]]
+        ctx.rng.shuffle(rest)
+        raw = must + rest[:max(0, lim - len(must))]
     behs = [{"minT": b[-1]["minT"], "permit": b[-1]["permit"], "steps": [{"a": s["a"], "g": s.get("g", 0)} for s in b]} for b in raw]
     bpath = os.path.join(ctx.run, "beh-server.ndjson")
     tpath = os.path.join(ctx.run, "trace-server.ndjson")
